@@ -1,11 +1,12 @@
 #!/bin/bash
 # runs every registered check of MANIFEST.json in the given tier (default quick); prints one line per check
 tier=${1:-quick}
-cd /verif
+V=${VERIF_DIR:-/verif}
+cd $V
 for p in $(python3 -c "import json; print(' '.join(c['property_id'] for c in json.load(open('MANIFEST.json'))['checks']))"); do
   s=$(date +%s)
   out=$(bin/check $p --tier $tier 2>&1); rc=$?
   e=$(date +%s)
   echo "$p rc=$rc $((e-s))s $(echo "$out" | grep -c '^KNOWN-FINDING') known | $(echo "$out" | tail -1)"
-  if [ $rc -ne 0 ]; then echo "$out" | grep "violation class\|^VIOLATION\|WORKER\|HARNESS" | head -5; fi
+  if [ $rc -ne 0 ]; then echo "$out" | grep "violation class\|^VIOLATION\|WORKER\|HARNESS\|UNREPRODUCED" | head -8; fi
 done
